@@ -17,7 +17,7 @@ Non-trivial = the limit lies within +-1 of the need, or is hit inside a call / l
         "programs with meta blocks do part of their work during compile where no stepping is possible: for those only the hard bound, success-iff-covered and recoverability are checked",
     ],
     max_len: 600,
-    quick_cases: 30_000,
+    quick_cases: 60_000,
     thorough_cases: 1_000_000,
     case,
     systematic: None,
